@@ -905,7 +905,7 @@ func init() {
 		"(*math/rand.Rand).Int31n": func(fr *frame, a []value) value {
 			e := fr.i.ex
 			e.reach("stub:rand.Int31n")
-			nt := toI(a[0], types.Int32)
+			nt := toI(a[1], types.Int32)
 			if e.decide("(bvsle "+nt+" "+bvlit(0, 32)+")", "Int31n contract") {
 				panic(targetPanic{iface{fr.i.runtimeErrorString, "invalid argument to Int31n"}})
 			}
